@@ -10,8 +10,8 @@ if [ "$1" = "-R" ]; then rev="-R"; shift; fi
 what="$1"; shift
 tier="${1:-quick}"; [ $# -gt 0 ] && shift
 ids="${@:-C01 C02 C03 C04 C05 C06 C07 C08 C09 C10 C11 C12 C13 C14 C15 C16 C17 C18 C19 C20}"
-wt="/tmp/scratch/camp-wt"   # fixed path: the Go build cache is reused across campaigns
-out="/tmp/scratch/camp-out"
+wt="${CAMP_WT:-/tmp/scratch/camp-wt}"   # fixed path per campaign stream: the Go build cache is reused across campaigns
+out="${CAMP_OUT:-/tmp/scratch/camp-out}"
 rm -rf "$out"; git -C /repo worktree remove --force "$wt" >/dev/null 2>&1
 git -C /repo worktree add -q --detach "$wt" HEAD || exit 3
 if [ -f "$what" ]; then p=$(realpath "$what"); else p=$(mktemp); git -C /repo show "$what" > "$p"; fi
@@ -29,4 +29,5 @@ for id in $ids; do
 done
 echo "CAMPAIGN $name ($tier) fired:${fired:- none}${broken:+ BROKEN:$broken}"
 git -C /repo worktree remove --force "$wt"
-rm -rf "$out" /verif/bin/vcheck-????????* /verif/bin/vcheck-race-????????* 2>/dev/null
+tag=$(echo "$wt" | md5sum | cut -c1-8)
+rm -rf "$out" /verif/bin/vcheck-$tag* /verif/bin/vcheck-race-$tag* 2>/dev/null
